@@ -7,15 +7,82 @@ import subprocess
 VERIF = os.path.dirname(os.path.dirname(os.path.abspath(__file__)))
 
 # id -> (technique, level text, level note, design ref)
+def _hist(prop):
+    return ('rule-based stateful testing (Hypothesis RuleBasedStateMachine) against an exact-rational reference model',
+            'DESIGN.md section 4 ' + prop)
+
+
 CHECKS = {
+    'C01': (
+        _hist('C01')[0],
+        'Generated histories (transfers, portfolio creation, orders, quote moves, clock updates) run against a real '
+        'broker and an exact-rational ledger; after every step master and portfolio cash, both account aggregates '
+        'and the event history (count, order, type, cents-rounded amounts and balances) must agree with the ledger. '
+        'Exploration: the quantifier is over all interleavings; thousands of shrinkable histories are sampled.',
+        'Trusts the harness ledger (Fractions) and the transaction tap; fill price/commission taken as tapped; '
+        'histories <= 60 steps, <= 4 portfolios, <= 5 assets; 1e-9 relative float tolerance.',
+        _hist('C01')[1]),
+    'C02': (
+        'property-based testing (Hypothesis programs + rule-based state machine) against a net-of-fills / last-price model',
+        'Generated Portfolio-level programs of fills and marks and generated broker histories; after every step the '
+        'holdings report, per-asset and total market value and total equity must equal the model (net of tapped '
+        'fills x latest fill-or-mark price, cash + market value).',
+        'Trusts the harness model; cash read from the portfolio; whole-number quantities; <= 60 steps.',
+        'DESIGN.md section 4 C02'),
+    'C03': (
+        'control-path enumeration + property-based ladders (Hypothesis) against algebraic identities in exact rationals',
+        'Every sign pattern x magnitude template of up to 4 (quick) / 6 (thorough) fills plus random ladders of up to '
+        '80 fills, through Position, PositionHandler and Portfolio; total == realised + unrealised == market value - '
+        'cash flows of the fills, unrealised == (mark - average cost) x net, re-marks move unrealised only.',
+        'Floating point: identities asserted to 1e-9 of the gross traded value; whole-number quantities.',
+        'DESIGN.md section 4 C03'),
+    'C04': (
+        _hist('C04')[0] + ' + exhaustive minute sweep against an independent exchange-hours predicate',
+        'Generated order/clock histories checked step by step against a FIFO/sells-first model and an independent '
+        'is_open predicate (submit changes nothing; closed updates fill nothing; open updates fill exactly the pending '
+        'orders once, in full, sells first, FIFO inside a side), plus a submit/update pair at every minute of a fortnight.',
+        'Every ordered asset is quoted; ordering across portfolios not asserted; <= 60 steps.',
+        'DESIGN.md section 4 C04'),
+    'C05': (
+        'property-based testing (Hypothesis) with a time-varying stub quote table; closed-form price/commission oracle and buy/sell mirror relation',
+        'Generated single-update fills: fill time, side of the quote at the update instant, commission == rate x '
+        '|round(price x qty)|, cash delta on a zero-funded portfolio, and equal commission for the mirrored trade.',
+        'Stub data handler stands in for any DataHandler; update instants >= 1 minute inside exchange hours.',
+        'DESIGN.md section 4 C05'),
+    'C10': (
+        'property-based testing (Hypothesis) + exhaustive grid against exact-rational budget inequalities',
+        'Generated direct calls of the long-only sizer on a real broker: non-negative whole quantities, q*p + fee <= '
+        'normalised share of (1-buffer)*equity < (q+1)*p + fee, total <= budget, invalid inputs rejected with ValueError.',
+        'Equity read from the broker; commission + tax <= 1; 1e-12 relative slack.',
+        'DESIGN.md section 4 C10'),
+    'C11': (
+        'property-based testing (Hypothesis) + exhaustive grid against exact-rational sign/truncation/leverage inequalities',
+        'Generated direct calls of the long/short sizer: whole quantities carrying the weight\'s sign, |q|*p <= '
+        '|allocation after fees| and within one currency unit of the largest affordable, gross <= L*E*(1+f), invalid '
+        'leverage / NaN price rejected.',
+        'Equity read from the broker; commission + tax <= 1; 1e-12 relative slack.',
+        'DESIGN.md section 4 C11'),
     'C12': (
         'property-based testing (Hypothesis) + exhaustive date sweep against an independent date-arithmetic calendar',
         'Generated (start,end,flags) ranges and a bounded exhaustive sweep; the emitted event list must equal a '
-        'calendar rebuilt from datetime.date arithmetic and be strictly increasing; end<start must raise. '
-        'Exploration: the quantifier is over all date ranges, the oracle is exact, the space is sampled.',
+        'calendar rebuilt from datetime.date arithmetic and be strictly increasing; end<start must raise.',
         'Trusts datetime.date arithmetic and pandas Timestamp comparison; UTC-aware inputs with end time-of-day '
         '>= start time-of-day only; dates 1990-2040.',
         'DESIGN.md section 4 C12'),
+    'C13': (
+        'property-based testing (Hypothesis) + exhaustive date sweep against an independent date-arithmetic calendar',
+        'Generated ranges x schedule kinds: each schedule must equal the date-arithmetic calendar (list equality, '
+        'strictly increasing, 21:00/14:30 UTC) and every instant must be a clock event for the same range under all '
+        'flag settings; buy-and-hold = start or next Monday; unknown weekdays rejected.',
+        'UTC-aware inputs with end time-of-day >= start time-of-day; dates 1990-2040.',
+        'DESIGN.md section 4 C13'),
+    'C15': (
+        'rule-based stateful testing (Hypothesis) with injected invalid requests; deep-snapshot equality oracle',
+        'Generated histories with 30 kinds of invalid request injected after fills and with orders pending: each must '
+        'raise the documented error type and leave master cash, portfolio cash, holdings, pending orders, history and '
+        'the portfolio/queue key sets identical.',
+        'Portfolio-internal clock not compared; broker clock never moved backwards; <= 60 steps.',
+        'DESIGN.md section 4 C15'),
 }
 
 PENDING_REASON = 'check not yet built in this session (planned: property-based check, see DESIGN.md section 4)'
